@@ -30,7 +30,10 @@ SHRINK = [["ops"], ["ops", "*", 1]]
 
 
 def chunk_knobs(seed, c):
-    return {"max_limit": [5, 3, 8, 10, 6000, 4][c % 6]}
+    k = {"max_limit": [5, 3, 8, 10, 6000, 4][c % 6]}
+    if (c // 6) % 2 == 1:
+        k["early_import"] = ["nostr_relay.storage"]      # the package is imported before the configuration arrives
+    return k
 
 
 def gen(rng, knobs):
